@@ -37,6 +37,7 @@ class Controller:
         self.workers = []
         self._local = threading.local()
         self._back = threading.Semaphore(0)
+        self.post_release = False    # extra yield point right after a lock release took effect (search mode only)
         self.clock = 0               # number of effective steps so far
         self.trace = []              # (thread, kind) of effective steps
 
@@ -139,6 +140,9 @@ class CoopRLock:
         if self.depth == 0:
             self.ctl.yield_point("release", self)
             self.owner = None
+            if self.ctl.post_release:
+                # a preemption point between "the lock is free again" and whatever the thread does next without it
+                self.ctl.yield_point("released", self)
 
     def __enter__(self):
         self.acquire()
